@@ -40,6 +40,7 @@ FORMS = {
     "parse": "[parse_date(t), is_valid_date(t), "
              "parse_date(t2, fmt = 'ddMMyyyy'), date(t), string(date(t))]",
     "parse_bad": "[parse_date(t), is_valid_date(t)]",
+    "date_bad": "do date(t) catch all 'rejected' end",
 }
 _F = {}
 
@@ -177,6 +178,16 @@ def check_texts(agg, year):
            "%04d0100" % year]
     if not leap:
         bad.append("%04d0229" % year)
+    # impossible times of day in the 10- and 14-digit forms, impossible days
+    for t in ["%04d010224" % year, "%04d0101236000" % year,
+              "%04d0101235960" % year, "%04d022824" % year] + bad:
+        r = f.ev("date_bad", t=V.ValueString(t))
+        agg.count("steps")
+        if not (r[0] == "value" and isinstance(r[1], V.ValueString)
+                and r[1].value == "rejected"):
+            agg.violation({"law": "text:impossible-date-text-rejected"},
+                          {"t": "text", "year": year, "text": t},
+                          "a runtime error", core.show_raw(r), size=1)
     for t in bad:
         r = f.ev("parse_bad", t=V.ValueString(t))
         agg.count("steps")
